@@ -366,6 +366,21 @@ Theorem spz_read_header_decode : forall (l : list N) (h : header) (f : fields),
 Proof. exact SpzExtraProofs.read_header_of_decode. Qed.
 Print Assumptions spz_read_header_decode.
 
+(* SPZ rotations: the vector part returned is the three dequantised bytes b/127.5 - 1 whatever its length; nothing
+   is renormalised.  Witnesses outside the unit ball: (255,255,255) -> (1,1,1,0), (0,0,0) -> (-1,-1,-1,0) and the
+   encoder-rounded axis quaternion (255,127,127) -> (1,-1/255,-1/255,0) with |xyz|^2 = 1 + 2/255^2. *)
+Theorem spz_rotation_xyz_raw : forall b0 b1 b2 : N,
+  let '(x, y, z, _) := rot_of [b0; b1; b2] 0 in x = rot1 b0 /\ y = rot1 b1 /\ z = rot1 b2.
+Proof. exact SpzExtraProofs.rot_of_xyz. Qed.
+Print Assumptions spz_rotation_xyz_raw.
+
+Theorem spz_rotation_outside_ball :
+  (let '(x, y, z, w2) := rot_of [255; 255; 255] 0 in (x == 1 /\ y == 1 /\ z == 1 /\ w2 == 0)%Q) /\
+  (let '(x, y, z, w2) := rot_of [0; 0; 0] 0 in (x == -1 /\ y == -1 /\ z == -1 /\ w2 == 0)%Q) /\
+  (let '(x, y, z, w2) := rot_of [255; 127; 127] 0 in (x == 1 /\ y == - (1 # 255) /\ z == - (1 # 255) /\ w2 == 0)%Q).
+Proof. exact SpzExtraProofs.rot_of_outside_ball. Qed.
+Print Assumptions spz_rotation_outside_ball.
+
 (* clause (3), the case the theorem above leaves out: the empty cloud (no vertex, hence no attribute) is written as a
    header announcing zero vertices and read back as the empty point cloud -- by computation on the two models *)
 Module SplatPlyEmpty.
